@@ -27,7 +27,8 @@ def run(chk, tier, scale=1.0):
     # directed scripts: ids that agree in their low bits live at the same time; a reload that removes a service which still owes an
     # answer or the continuation of a MORE dialogue
     dj = pcommon.collision_jobs(b, chk.seed, PROPS, int((120 if tier == "quick" else 3000) * scale)) + \
-         pcommon.reload_jobs(b, chk.seed, PROPS, int((280 if tier == "quick" else 7000) * scale))
+         pcommon.reload_jobs(b, chk.seed, PROPS, int((280 if tier == "quick" else 7000) * scale)) + \
+         pcommon.late_jobs(b, chk.seed, PROPS, int((60 if tier == "quick" else 1500) * scale))
     for rs in vcommon.pmap(pcommon.script_worker, dj):
         prun.fold(chk, "C03", rs, crash_is_violation=True)
     # bursts: hundreds of clients in one write, judged when the daemon sleeps with its input drained (no hook, no deadline)
